@@ -93,7 +93,7 @@ class MonthLongStringMiddleware(_MonthInterpolator):
         if isinstance(v, int):
             if v < 1 or v > 12:
                 return (
-                    month_field,
+                    month_field.value,
                     f"month-field unchanged - unknown month {v}",
                 )  # Nothing we can do here
             return _MONTH_FULL[v - 1], "transformed int-month to str-month"
@@ -137,7 +137,7 @@ class MonthAbbreviationMiddleware(_MonthInterpolator):
         if isinstance(v, int):
             if v < 1 or v > 12:
                 # Nothing we can do here
-                return month_field, f"month-field unchanged - unknown month {v}"
+                return month_field.value, f"month-field unchanged - unknown month {v}"
             return _MONTH_ABBREV[v - 1], "transformed int-month to abbreviated month"
         elif isinstance(v, str):
             v_lower = v.lower()
